@@ -686,7 +686,7 @@ fn main() {
     match mode.as_str() {
         "random" => {
             let arch = Arch::parse(&fv::arg_str("arch", "mips"));
-            let mut rng = Rng::new(fv::seed_from_env() ^ if arch == Arch::Mips { 0xC06_0001 } else { 0xC06_0002 });
+            let mut rng = Rng::new(fv::seed_from_env() ^ (if arch == Arch::Mips { 0xC06_0001u64 } else { 0xC06_0002 } << 24));
             let n = fv::arg_u64("n", 100);
             let runs = fv::arg_u64("runs", 3);
             for id in 0..n {
